@@ -1,7 +1,8 @@
 (* C02 - written files follow the published v0.2 byte layout exactly.
    Only statements, closed by [exact], each followed by Print Assumptions. *)
 From Coq Require Import ZArith NArith List Bool.
-Require Import ListN Result Bytes Prog Codec PoseRead CodecRT PoseReadLemmas C02_SpecV02 C02_SpecProofs CodecGenTie C01_Examples.
+Require Import ListN Result Bytes F32 Prog Codec PoseRead CodecRT PoseReadLemmas C02_SpecV02 C02_SpecProofs CodecGenTie C01_Examples
+  C02_Content C02_F32RT C02_Converse C02_Examples C04_Spec C04_SpecRT.
 Import ListNotations.
 Open Scope N_scope.
 
@@ -14,10 +15,8 @@ Theorem C02_writer_matches_spec :
 Proof. exact writer_matches_spec. Qed.
 Print Assumptions C02_writer_matches_spec.
 
-(* Reader direction, partial: for the content of every accepted pose, the spec encoder's output is read back to
-   exactly that content under every memo state.  (Not proved: contents that are not the image of an accepted
-   pose - the converse "spec-encodable => accepted" - and byte-for-byte re-writing of a pose just read, which
-   needs float32 -> double -> float32 to be the identity; both are covered by the correspondence run.) *)
+(* Reader direction for the content of an accepted pose (kept from the first version of this check; it is the special
+   case c = canon p of C02_reader_reads_spec below, which has no "accepted pose" hypothesis any more). *)
 Theorem C02_reader_reads_spec_partial :
   forall legacy m p bs, MemoOK m -> write_pose p = Ok bs -> wf_arrays p -> 1 <= nth 3 (w_shape p) 0 ->
     exists sb, spec_encode (canon p) = Some sb /\ fst (read_bytes legacy m sb no_args) = Ok (canon p).
@@ -28,6 +27,88 @@ Print Assumptions C02_reader_reads_spec_partial.
 Theorem C02_example : exists bs, write_pose ex_pose = Ok bs /\ lenN bs = 148.
 Proof. exact ex_pose_written. Qed.
 Print Assumptions C02_example.
+
+(* What the independent encoder's success means for a content: every count and value fits its field, every string is
+   UTF-8 encodable in at most 65535 bytes, every float is a 32-bit word - and the file is the header bytes followed by
+   fps, frame count, people count, the coordinate block and the confidence block.  So "spec_encode c = Some sb" is the
+   only range hypothesis the theorems below need. *)
+Theorem C02_spec_encode_success :
+  forall c sb, spec_encode c = Some sb ->
+    wf_header (p_header c) /\ b_fps (p_body c) < 4294967296 /\ nth 0 (b_shape (p_body c)) 0 < 4294967296 /\
+    u16 (nth 1 (b_shape (p_body c)) 0) /\ all_words (b_data (p_body c)) /\ all_words (b_conf (p_body c)) /\
+    sb = spec_header (p_header c) ++ spec_body_bytes (p_body c).
+Proof. exact spec_encode_inv. Qed.
+Print Assumptions C02_spec_encode_success.
+
+(* Reader direction (the converse): for EVERY content c the independent encoder encodes - not only the images of
+   accepted poses - whose shape is coherent with its header (model/C02_Content.v [coherent]: version read as 0.2,
+   shape = (frames, people, points of the header, dimensions of the header >= 1), block lengths = the shape's), under
+   every legacy decoder and every consistent memo state, Pose.read returns exactly c; the only derived field is the
+   mask (missing iff the confidence word is +0 or -0).  NaN payloads, infinities, any version word that rounds to 0.2
+   are read back bit for bit.  Trailing bytes after the file do not matter. *)
+Theorem C02_reader_reads_spec :
+  forall legacy m c sb, MemoOK m -> coherent c = true -> spec_encode c = Some sb ->
+    fst (read_bytes legacy m sb no_args) = Ok (with_derived_mask c).
+Proof. exact reader_reads_spec. Qed.
+Print Assumptions C02_reader_reads_spec.
+Theorem C02_reader_reads_spec_trailing :
+  forall legacy m c sb x, MemoOK m -> coherent c = true -> spec_encode c = Some sb ->
+    fst (read_bytes legacy m (sb ++ x) no_args) = Ok (with_derived_mask c).
+Proof. exact reader_reads_spec_trailing. Qed.
+Print Assumptions C02_reader_reads_spec_trailing.
+(* non-vacuity: a coherent, encodable content that is the image of NO written pose (foreign version word, NaN payloads,
+   infinite frame rate, no mask), with a memo holding another file's header *)
+Theorem C02_reader_example :
+  exists m sb, m <> None /\ MemoOK m /\ coherent ex_foreign = true /\ spec_encode ex_foreign = Some sb /\
+    lenN sb = 148 /\ (forall p, canon p <> ex_foreign) /\ with_derived_mask ex_foreign <> ex_foreign.
+Proof. exact ex_foreign_ok. Qed.
+Print Assumptions C02_reader_example.
+
+(* the coherence hypothesis cannot be dropped: the encoding does not determine where the coordinate block ends *)
+Theorem C02_coherence_needed :
+  exists c1 c2 sb, coherent c1 = true /\ coherent c2 = false /\ b_conf (p_body c1) <> b_conf (p_body c2) /\
+    spec_encode c1 = Some sb /\ spec_encode c2 = Some sb.
+Proof. exact ex_coherence_needed. Qed.
+Print Assumptions C02_coherence_needed.
+
+(* float32 -> Python float / float64 -> float32 is the identity on EVERY 32-bit word that is not a NaN, and maps every
+   NaN to the quiet NaN 0x7fc00000 (all 2^32 words, from the definitions of F32.v / SpecFloat, no sweep);
+   struct.pack('<f') of the widened frame rate never overflows. *)
+Theorem C02_f32_widen_narrow :
+  forall w, w < 4294967296 -> f64_to_f32 (f32_to_f64 w) = canon_nan32 w /\ pack_f32 (f32_to_f64 w) = Some (canon_nan32 w).
+Proof. exact f32_widen_both. Qed.
+Print Assumptions C02_f32_widen_narrow.
+
+(* Re-writing a pose that was just read from such a file: Pose.write accepts it, and its bytes are the independent
+   encoding of the same content with the writer's version word 0.2 and every NaN replaced by the quiet NaN. *)
+Theorem C02_rewrite_canonical :
+  forall legacy m c sb q, MemoOK m -> coherent c = true -> spec_encode c = Some sb ->
+    fst (read_bytes legacy m sb no_args) = Ok q ->
+    exists sb', write_pose (wpose_of_read q) = Ok sb' /\ spec_encode (rewritten c) = Some sb'.
+Proof. exact rewrite_canonical. Qed.
+Print Assumptions C02_rewrite_canonical.
+(* Re-write identity: when the file carries the version word 0.2 (what an encoder of the v0.2 document writes) and no
+   NaN other than the quiet NaN, re-writing the pose just read reproduces the file byte for byte.
+   The NaN hypothesis is necessary in the model (C02_rewrite_nan_exception): F32.v canonicalises NaN payloads, as the
+   harness does when it compares float words; on hardware a quiet NaN keeps its payload, a signalling NaN is quieted. *)
+Theorem C02_rewrite_identity :
+  forall legacy m c sb q, MemoOK m -> coherent c = true ->
+    h_version (p_header c) = version_word -> nans_canonical c = true -> spec_encode c = Some sb ->
+    fst (read_bytes legacy m sb no_args) = Ok q -> write_pose (wpose_of_read q) = Ok sb.
+Proof. exact rewrite_identity. Qed.
+Print Assumptions C02_rewrite_identity.
+(* non-vacuity: the content of the C01 example pose (148 bytes; NaN, -0.0, subnormal data) satisfies every hypothesis *)
+Theorem C02_rewrite_example :
+  exists sb, coherent ex_content = true /\ h_version (p_header ex_content) = version_word /\
+    nans_canonical ex_content = true /\ spec_encode ex_content = Some sb /\ lenN sb = 148.
+Proof. exact ex_content_ok. Qed.
+Print Assumptions C02_rewrite_example.
+Theorem C02_rewrite_nan_exception :
+  exists c sb q, coherent c = true /\ h_version (p_header c) = version_word /\ spec_encode c = Some sb /\
+    fst (read_bytes no_legacy None sb no_args) = Ok q /\
+    exists sb', write_pose (wpose_of_read q) = Ok sb' /\ sb' <> sb /\ lenN sb' = lenN sb.
+Proof. exact ex_nan_payload_rewritten. Qed.
+Print Assumptions C02_rewrite_nan_exception.
 
 (* ties to the current source *)
 Theorem C02_tie_struct_table : Gen_Codec.struct_table = exp_struct_table.
